@@ -247,7 +247,30 @@ def spellings_through_run(ck, per):
 state = {'model_bad': []}
 
 
+def replay(ck):
+    import json
+    r = json.load(open(ck.replay_path)).get('replay') or {}
+    print('replaying', json.dumps(r, default=str)[:400])
+    if 'case' in r:
+        import time_e2e
+        ds = time_e2e.run_e2e(tc.DriverProxy(ck), ck.rng, 0, cases=[r['case']])
+        for d in ds: print('  still disagrees:', d['op'], d['predicate'], d['input'], str(d['got'])[:200])
+        sys.exit(1 if ds else 0)
+    s = r.get('input') or r.get('example')
+    if not isinstance(s, str):
+        print('  (nothing replayable in this file)'); sys.exit(2)
+    con = tc.connect()
+    lean = tc.driver(ck, ['X ' + s])[0]
+    macro = r.get('macro') or 'vtl_period_normalize'
+    got_sql = sql_map(con, macro, [s])[0]
+    print('  model: %s\n  check_time_period: %s\n  %s: %s\n  expected: %s' % (lean, py_norm(s), macro, got_sql, r.get('expected')))
+    exp = r.get('expected')
+    sys.exit(0 if exp is not None and got_sql == exp and (macro != 'vtl_period_normalize' or py_norm(s) == exp) else 1)
+
+
 def main(ck):
+    if ck.replay_path:
+        return replay(ck)
     tc.gen_macros(ck)            # Props/C21 ties the canonical widths to the SQL LPAD table
     pr = ck.proof('C21')
     quick = ck.quick()
